@@ -957,6 +957,30 @@ def cp_tlc_random(streams, tag="c24r"):
     return printed, {"states_generated": gen, "states_distinct": dist, "wall_s": round(wall, 1), "streams": len(uniq)}
 
 
+def cp_boundary_cases():
+    """Long command lines in which a multi-byte character straddles (or ends at) a typical buffer/preview size:
+    any byte-indexed slicing of the command line (log previews, fixed read buffers) shows here."""
+    out = []
+    for B in (16, 32, 64, 128, 255, 256, 257, 512, 1000, 1024, 4096, 8192, 32768):
+        for ch in ("\u00e9", "\u65e5", "\U0001f600"):
+            enc = ch.encode()
+            for shift in range(1, len(enc) + 1):          # the character starts `shift` bytes before offset B
+                head = b"PUT t "
+                pad = B - shift - len(head)
+                if pad < 0:
+                    continue
+                payload = b"a" * pad + enc + b"zz"
+                line = head + payload
+                if len(line) > MAX_FRAME_LEN:
+                    continue
+                chunks = [[_frame(b"REGISTER t").hex(), _frame(line).hex(), _frame(b"GET t").hex(), _frame(b"NOPE").hex()]]
+                out.append({"id": "bnd_%d_%d_%d" % (B, len(enc), shift), "chunks": chunks,
+                            "expect": [{"k": "OK"}, {"k": "OK"}, {"k": "VAL", "p": payload.hex()}, {"k": "ERR"}],
+                            "slack": False, "src": "boundary", "topic": "t", "design_ok": True, "delivery": "one",
+                            "frames": [{"cls": "register", "ri": 0}, {"cls": "put", "ri": 1}, {"cls": "get", "ri": 2}, {"cls": "unknown", "ri": 3}]})
+    return out
+
+
 def c24(tier):
     v = Verdicts("C24", tier)
     if tier == "thorough":
@@ -979,7 +1003,7 @@ def c24(tier):
     for i, c in enumerate(rprinted):
         for k in range(reps):
             cases.append(cp_concretise(c, "r%d_%d" % (i, k), rng, "random"))
-    cases = corp + cases
+    cases = corp + cp_boundary_cases() + cases
     results = run_harness(binp, "proto", cases, d)
     if len(results) != len(cases):
         raise C.ToolError("dwpure proto: %d results for %d cases" % (len(results), len(cases)))
